@@ -62,6 +62,11 @@ func buildRound(r *ev.Run, rng *rand.Rand, round int) []Spec {
 			}
 		}
 	}
+	// every store with explicit weights, removed stores leave their weight records behind
+	for _, n := range []int{1, 2, 3, 4, 50, 99, 100, 101, 150, 201, 330} {
+		add(Spec{Kind: "stores", Backend: "mem", IDGen: pick(rng, []string{"dense1", "dense-offset", "near-2^63", "dec-prefix", "top-no-max"}), N: n, Hist: "weighted-tombstones"})
+		add(Spec{Kind: "stores", Backend: pick(rng, []string{"mem", "leveldb"}), IDGen: pick(rng, idGens), N: n, Hist: "weighted-tombstones"})
+	}
 	for _, n := range []int{0, 99, 100, 101, 200, 201} {
 		add(Spec{Kind: "stores", Backend: "leveldb", IDGen: pick(rng, idGens), N: n, Hist: pick(rng, hists)})
 		add(Spec{Kind: "stores", Backend: "mem", IDGen: pick(rng, idGensNoMax), N: n, Hist: pick(rng, hists), Keys: "large", W: 1})
@@ -191,6 +196,59 @@ func buildRound(r *ev.Run, rng *rand.Rand, round int) []Spec {
 	for i := 0; i < nk; i++ {
 		add(Spec{Kind: "concurrent", Backend: "regionstorage", IDGen: pick(rng, idGensNoMax), N: 50 + rng.Intn(600), End: pick(rng, ends)})
 	}
+	// ---- scale: stores beyond 1000/1024 and a few thousand; regions around the halved page sizes 1250/2500/5000
+	// and the default page of 10000 (quick too, small keys)
+	for _, n := range []int{999, 1000, 1001, 1023, 1024, 1025, 2500} {
+		add(Spec{Kind: "stores", Backend: "mem", IDGen: pick(rng, idGens), N: n, Hist: pick(rng, hists)})
+	}
+	add(Spec{Kind: "stores", Backend: "leveldb", IDGen: pick(rng, idGens), N: 1025, Hist: "mixed"})
+	if !th {
+		for _, c := range [][2]int{{1250, 1249}, {1250, 1250}, {1250, 1251}, {1250, 2501}, {2500, 2500}, {2500, 2501}, {5000, 5001}, {0, 10001}} {
+			add(Spec{Kind: "regions", Backend: "mem", IDGen: pick(rng, idGens), N: c[1], Hist: pick(rng, []string{"plain", "delete"}), Keys: "small", W: c[0]})
+		}
+		add(Spec{Kind: "regions", Backend: "regionstorage", IDGen: pick(rng, idGens), N: 10001, Hist: "plain", Keys: "small", End: pick(rng, ends)})
+	}
+	// ---- other writers inside a running load (+ read faults inside it), retried on the same Storage
+	for _, what := range []string{"stores", "regions"} {
+		for _, fault := range []string{"", "", "transient-range", "persistent-range", "transient-load"} {
+			if what == "regions" && fault == "transient-load" {
+				continue
+			}
+			n := []int{150, 250, 330}[rng.Intn(3)]
+			if what == "regions" {
+				n = []int{200, 330, 500}[rng.Intn(3)]
+			}
+			add(Spec{Kind: "interleave", Backend: "mem", IDGen: pick(rng, idGensRoomy), N: n, What: what, Fault: fault, W: 156})
+			add(Spec{Kind: "interleave", Backend: pick(rng, []string{"mem", "leveldb"}), IDGen: pick(rng, idGens), N: n, What: what, Fault: fault, W: 156})
+			if th {
+				add(Spec{Kind: "interleave", Backend: "etcd", IDGen: pick(rng, idGens), N: n, What: what, Fault: fault, W: 156})
+				add(Spec{Kind: "interleave", Backend: "mem", IDGen: pick(rng, idGens), N: 1030, What: what, Fault: fault, W: 156})
+			}
+		}
+		if what == "stores" {
+			// a read fault on one chosen weight read (first store, around the page boundary, last store)
+			for _, ord := range []int{1, 2, 199, 200, 201, 202, 299, 300} {
+				add(Spec{Kind: "interleave", Backend: "mem", IDGen: pick(rng, idGens), N: 150, What: what, Fault: "transient-load", Hist: "directed", W: ord})
+			}
+			for k := 0; k < 4; k++ {
+				add(Spec{Kind: "interleave", Backend: "mem", IDGen: pick(rng, idGens), N: 120 + rng.Intn(100), What: what, Fault: "transient-load"})
+			}
+		}
+		add(Spec{Kind: "interleave", Backend: "regionstorage", IDGen: pick(rng, idGens), N: 300, What: what})
+		add(Spec{Kind: "interleave", Backend: "mem", IDGen: pick(rng, idGens), N: 1030, What: what, W: 156})
+	}
+	for i := 0; i < r.Pick(4, 12); i++ {
+		add(Spec{Kind: "faultprune", Backend: pick(rng, []string{"mem", "mem", "leveldb"}), IDGen: pick(rng, idGens), N: []int{330, 470, 700}[rng.Intn(3)], W: 156})
+		add(Spec{Kind: "cycles", Backend: pick(rng, []string{"mem", "leveldb", "regionstorage"}), IDGen: pick(rng, idGens), N: []int{60, 300, 700}[rng.Intn(3)], What: "regions", W: []int{0, 156}[rng.Intn(2)]})
+		add(Spec{Kind: "cycles", Backend: "regionstorage", IDGen: pick(rng, idGens), N: []int{60, 300, 700}[rng.Intn(3)], What: "regions"})
+		add(Spec{Kind: "cycles", Backend: pick(rng, []string{"mem", "leveldb"}), IDGen: pick(rng, idGens), N: []int{150, 310, 1100}[rng.Intn(3)], What: "stores"})
+		add(Spec{Kind: "switch", Backend: "regionstorage", IDGen: pick(rng, idGens), N: 200 + rng.Intn(600)})
+		add(Spec{Kind: "flushload", Backend: "regionstorage", IDGen: pick(rng, idGens), N: 100 + rng.Intn(300), End: pick(rng, ends)})
+		if th {
+			add(Spec{Kind: "faultprune", Backend: "etcd", IDGen: pick(rng, idGens), N: 330, W: 156})
+			add(Spec{Kind: "cycles", Backend: "etcd", IDGen: pick(rng, idGens), N: 300, What: pick(rng, []string{"stores", "regions"}), W: 156})
+		}
+	}
 	// ---- concurrent LoadRegionsOnce while a load is provably in flight (Keys = where the first load is
 	// parked, W = number of concurrent callers, Hist = whether the first load is made to fail)
 	for _, pos := range []string{"first", "middle", "last"} {
@@ -226,6 +284,16 @@ func (x *runner) runCase(sp Spec) {
 		x.runConcurrent(sp)
 	case "once":
 		x.runOnce(sp)
+	case "interleave":
+		x.runInterleave(sp)
+	case "faultprune":
+		x.runFaultPrune(sp)
+	case "cycles":
+		x.runCycles(sp)
+	case "switch":
+		x.runSwitch(sp)
+	case "flushload":
+		x.runFlushLoad(sp)
 	default:
 		x.r.Inconclusive("unknown case kind %q", sp.Kind)
 		return
@@ -233,7 +301,7 @@ func (x *runner) runCase(sp Spec) {
 	x.r.Eval(1)
 	x.r.Count("cases_"+sp.Kind+"_"+sp.Backend, 1)
 	// distinct = shape of the case, not its random contents
-	x.r.Distinct(fmt.Sprintf("%s|%s|%s|%d|%s|%s|%d|%s", sp.Kind, sp.Backend, sp.IDGen, sp.N, sp.Hist, sp.Keys, sp.W, sp.End))
+	x.r.Distinct(fmt.Sprintf("%s|%s|%s|%d|%s|%s|%d|%s|%s|%s", sp.Kind, sp.Backend, sp.IDGen, sp.N, sp.Hist, sp.Keys, sp.W, sp.End, sp.What, sp.Fault))
 }
 
 func main() {
@@ -298,6 +366,12 @@ func main() {
 		}
 		if r.Counter("once_first_load_parked_in_flight") == 0 || r.Counter("once_calls_returned_nil") == 0 {
 			r.Inconclusive("no concurrent LoadRegionsOnce case had a load parked in flight")
+		}
+		for _, c := range []string{"interleave_writes_inside_a_running_load", "loads_failed_by_injected_read_fault", "prune_loads_failed_midway_then_retried",
+			"load_prune_cycles_on_a_long_lived_storage", "switch_loads_judged", "flushload_loads_that_overlapped_running_writers"} {
+			if r.Counter(c) == 0 {
+				r.Inconclusive("coverage: counter %s is 0", c)
+			}
 		}
 		if r.Counter("prune_cases_that_pruned") == 0 {
 			r.Inconclusive("no pruning case pruned anything")
